@@ -23,14 +23,18 @@ Definition thing_key (v : variants) (a : thing) : key Q :=
 
 (* One observation:  a == b, b == a (True/False/raises), whether hash(a), hash(b) succeed,
    and whether the two hash values are equal. *)
-Record caseEq := { e_v : variants; e_a : thing; e_b : thing;
+Record caseEq := { e_v : variants; e_a : thing; e_b : thing; e_same : bool (* b is the very object a *);
                    e_ab : tri; e_ba : tri; e_ha : bool; e_hb : bool; e_hh : bool }.
 
 Definition checkEq (k : caseEq) : bool :=
   let v := e_v k in
   let ka := thing_key v (e_a k) in let kb := thing_key v (e_b k) in
-  tri_eqb (thing_eqt v (e_a k) (e_b k)) (e_ab k)
-  && tri_eqb (thing_eqt v (e_b k) (e_a k)) (e_ba k)
+  (* the `is` shortcuts of the code are not modelled; they matter only where comparing an
+     object with itself would not give True, which cannot happen once the ndim guard is in
+     (theorem eq_reflexive) -- such same-object cases are not compared *)
+  ((e_same k && negb (tri_eqb (thing_eqt v (e_a k) (e_a k)) TT)) ||
+   (tri_eqb (thing_eqt v (e_a k) (e_b k)) (e_ab k)
+    && tri_eqb (thing_eqt v (e_b k) (e_a k)) (e_ba k)))
   && Bool.eqb (hashable ka) (e_ha k)
   && Bool.eqb (hashable kb) (e_hb k)
   (* equivalent keys must give equal hashes (the converse is not required of an implementation) *)
